@@ -40,6 +40,8 @@ struct Base {
     date_kind: usize,
     md5_type: bool,
     presigned: bool,
+    /// sent over HTTP/2: no Host line, the authority names the host - and, virtual-hosted, the bucket
+    h2: bool,
 }
 
 fn bases(tier: Tier) -> Vec<Base> {
@@ -74,7 +76,10 @@ fn bases(tier: Tier) -> Vec<Base> {
                                             continue;
                                         }
                                     }
-                                    v.push(Base { method, path, vh, query: q.clone(), amz, date_kind, md5_type, presigned });
+                                    v.push(Base { method, path, vh, query: q.clone(), amz, date_kind, md5_type, presigned, h2: false });
+                                    if qi <= 1 && amz == 0 && !md5_type && date_kind == 0 {
+                                        v.push(Base { method, path, vh, query: q.clone(), amz, date_kind, md5_type, presigned, h2: true });
+                                    }
                                 }
                             }
                         }
@@ -96,6 +101,12 @@ fn build(b: &Base) -> Req {
     };
     let target = if b.query.is_empty() { path } else { format!("{path}?{}", b.query) };
     let mut r = Req::new(b.method, &target).header("host", &host);
+    if b.h2 {
+        r.remove_header("host");
+        r.version = http::Version::HTTP_2;
+        // (a port would make the host foreign to the configured base domain, which is written without one)
+        r.authority = Some(host.clone());
+    }
     match b.amz {
         0 => {}
         1 => r.headers.push(("x-amz-meta-a".into(), b"v".to_vec())),
